@@ -10,12 +10,15 @@ import (
 	"github.com/cockroachdb/pebble/internal/base"
 	"github.com/cockroachdb/pebble/internal/keyspan"
 	"github.com/cockroachdb/pebble/internal/keyspan/keyspanimpl"
+	"github.com/cockroachdb/pebble/internal/rangekeystack"
 )
 
 // Shapes shared with spec/Spans.
 type c32Key struct {
-	S int `json:"s"`
-	X int `json:"x"`
+	S int `json:"s"` // sequence number
+	T int `json:"t"` // kind: 19 RANGEKEYDEL, 20 RANGEKEYUNSET, 21 RANGEKEYSET
+	X int `json:"x"` // suffix
+	V int `json:"v"` // value id (0: no value)
 }
 type c32Span struct {
 	A  int      `json:"a"`
@@ -28,11 +31,19 @@ type c32In struct {
 	Lo     int         `json:"lo"`
 	Hi     int         `json:"hi"`
 	Cut    int         `json:"cut"`
+	M      string      `json:"m"` // DefragmentMethod of a defrag case: "internal" | "user"
 }
+
+// c32Seek: the fragment (index into Fwd, 0 none, -1 a span that is not one of them) found by SeekGE(k) / SeekLT(k),
+// and by a Next / a Prev right after that seek.
 type c32Seek struct {
 	K  int `json:"k"`
 	Ge int `json:"ge"`
+	Gn int `json:"gn"`
+	Gp int `json:"gp"`
 	Lt int `json:"lt"`
+	Ln int `json:"ln"`
+	Lp int `json:"lp"`
 }
 type c32Out struct {
 	Fwd   []c32Span `json:"fwd"`
@@ -42,23 +53,40 @@ type c32Out struct {
 	Msg   string    `json:"msg"`
 }
 
-func c32ToSpan(s c32Span) keyspan.Span {
-	sp := keyspan.Span{Start: ukey(s.A), End: ukey(s.B), KeysOrder: keyspan.ByTrailerDesc}
+func c32Value(v int) []byte {
+	if v == 0 {
+		return nil
+	}
+	return []byte{'v', byte('0' + v)}
+}
+
+func c32ToSpan(s c32Span, order keyspan.KeysOrder) keyspan.Span {
+	sp := keyspan.Span{Start: ukey(s.A), End: ukey(s.B), KeysOrder: order}
 	for _, k := range s.Ks {
-		sp.Keys = append(sp.Keys, keyspan.Key{Trailer: base.MakeTrailer(base.SeqNum(k.S), base.InternalKeyKindRangeKeySet),
-			Suffix: c17Suffix(k.X), Value: []byte{byte(k.S)}})
+		sp.Keys = append(sp.Keys, keyspan.Key{Trailer: base.MakeTrailer(base.SeqNum(k.S), base.InternalKeyKind(k.T)),
+			Suffix: c17Suffix(k.X), Value: c32Value(k.V)})
 	}
 	return sp
 }
 
+// c32UserView: the case under way iterates in the user view (user-iteration DefragmentMethod), where sequence numbers
+// are not part of the observation (which fragment's keys a joined span keeps depends on the direction): recorded as 0.
+var c32UserView bool
+
 func c32FromSpan(s *keyspan.Span) c32Span {
 	o := c32Span{A: urank(s.Start), B: urank(s.End), Ks: []c32Key{}}
 	for _, k := range s.Keys {
-		x := c17SuffixRank(k.Suffix)
-		if len(k.Value) != 1 || int(k.Value[0]) != int(k.SeqNum()) {
-			x = -1 // the value did not travel with its key
+		v := 0
+		if len(k.Value) == 2 && k.Value[0] == 'v' {
+			v = int(k.Value[1] - '0')
+		} else if len(k.Value) != 0 {
+			v = -1
 		}
-		o.Ks = append(o.Ks, c32Key{S: int(k.SeqNum()), X: x})
+		q := int(k.SeqNum())
+		if c32UserView {
+			q = 0
+		}
+		o.Ks = append(o.Ks, c32Key{S: q, T: int(k.Kind()), X: c17SuffixRank(k.Suffix), V: v})
 	}
 	return o
 }
@@ -73,7 +101,7 @@ func c32Fragment(spans []c32Span, cut int) []keyspan.Span {
 			f.Truncate(ukey(cut))
 			cutDone = true
 		}
-		f.Add(c32ToSpan(s))
+		f.Add(c32ToSpan(s, keyspan.ByTrailerDesc))
 	}
 	if !cutDone {
 		f.Truncate(ukey(cut))
@@ -86,10 +114,16 @@ func c32Find(fwd []c32Span, s *keyspan.Span) int {
 	if s == nil {
 		return 0
 	}
-	a, b := urank(s.Start), urank(s.End)
+	o := c32FromSpan(s)
 	for i := range fwd {
-		if fwd[i].A == a && fwd[i].B == b {
-			return i + 1
+		if fwd[i].A == o.A && fwd[i].B == o.B && len(fwd[i].Ks) == len(o.Ks) {
+			same := true
+			for j := range o.Ks {
+				same = same && fwd[i].Ks[j] == o.Ks[j]
+			}
+			if same {
+				return i + 1
+			}
 		}
 	}
 	return -1
@@ -115,16 +149,23 @@ func c32Walk(it keyspan.FragmentIterator, nb int, out *c32Out) {
 	for i := len(rev) - 1; i >= 0; i-- {
 		out.Bwd = append(out.Bwd, rev[i])
 	}
+	find := func(s *keyspan.Span, err error) int {
+		if err != nil {
+			out.Err, out.Msg = true, err.Error()
+		}
+		return c32Find(out.Fwd, s)
+	}
+	// every seek is followed by a step in the same and (after the same seek again) in the opposite direction
 	for k := 0; k < nb; k++ {
 		sk := c32Seek{K: k}
-		if s, err = it.SeekGE(ukey(k)); err != nil {
-			out.Err, out.Msg = true, err.Error()
-		}
-		sk.Ge = c32Find(out.Fwd, s)
-		if s, err = it.SeekLT(ukey(k)); err != nil {
-			out.Err, out.Msg = true, err.Error()
-		}
-		sk.Lt = c32Find(out.Fwd, s)
+		sk.Ge = find(it.SeekGE(ukey(k)))
+		sk.Gn = find(it.Next())
+		find(it.SeekGE(ukey(k)))
+		sk.Gp = find(it.Prev())
+		sk.Lt = find(it.SeekLT(ukey(k)))
+		sk.Lp = find(it.Prev())
+		find(it.SeekLT(ukey(k)))
+		sk.Ln = find(it.Next())
 		out.Seeks = append(out.Seeks, sk)
 	}
 	it.Close()
@@ -138,6 +179,7 @@ func c32Run(in *c32In, nb int) (out c32Out) {
 		}
 	}()
 	cmp := base.DefaultComparer.Compare
+	c32UserView = in.Op == "defrag" && in.M == "user"
 	switch in.Op {
 	case "frag":
 		for _, s := range c32Fragment(in.Levels[0], in.Cut) {
@@ -158,13 +200,36 @@ func c32Run(in *c32In, nb int) (out c32Out) {
 		m.Init(base.DefaultComparer, keyspan.NoopTransform, new(keyspanimpl.MergingBuffers), iters...)
 		c32Walk(&m, nb, &out)
 	case "defrag":
+		// the two DefragmentMethods of the tree: keyspan.DefragmentInternal (compactions, internal-key scans; keys by
+		// trailer descending) and the user-iteration method of rangekeystack.UserIteratorConfig (spans as its Transform
+		// leaves them: sets by suffix ascending)
+		var method keyspan.DefragmentMethod = keyspan.DefragmentInternal
+		order := keyspan.ByTrailerDesc
+		if in.M == "user" {
+			method, order = new(rangekeystack.UserIteratorConfig), keyspan.BySuffixAsc
+		}
 		var spans []keyspan.Span
 		for _, s := range in.Levels[0] {
-			spans = append(spans, c32ToSpan(s))
+			spans = append(spans, c32ToSpan(s, order))
 		}
 		var d keyspan.DefragmentingIter
-		d.Init(base.DefaultComparer, keyspan.NewIter(cmp, spans), keyspan.DefragmentInternal, keyspan.StaticDefragmentReducer,
+		d.Init(base.DefaultComparer, keyspan.NewIter(cmp, spans), method, keyspan.StaticDefragmentReducer,
 			new(keyspan.DefragmentingBuffers))
+		c32Walk(&d, nb, &out)
+	case "mdefrag":
+		// the compaction's range-key input: per-level fragments merged, then defragmented (compaction.go)
+		var iters []keyspan.FragmentIterator
+		for _, l := range in.Levels {
+			var spans []keyspan.Span
+			for _, s := range l {
+				spans = append(spans, c32ToSpan(s, keyspan.ByTrailerDesc))
+			}
+			iters = append(iters, keyspan.NewIter(cmp, spans))
+		}
+		var m keyspanimpl.MergingIter
+		m.Init(base.DefaultComparer, keyspan.NoopTransform, new(keyspanimpl.MergingBuffers), iters...)
+		var d keyspan.DefragmentingIter
+		d.Init(base.DefaultComparer, &m, keyspan.DefragmentInternal, keyspan.StaticDefragmentReducer, new(keyspan.DefragmentingBuffers))
 		c32Walk(&d, nb, &out)
 	default:
 		out.Err, out.Msg = true, "unknown op"
@@ -172,9 +237,102 @@ func c32Run(in *c32In, nb int) (out c32Out) {
 	return out
 }
 
+// c32RandKey draws a key with the given seqnum: mostly sets; unsets and deletes carry no value, deletes no suffix.
+func c32RandKey(rng randSrc, q int) c32Key {
+	switch rng.Intn(6) {
+	case 0:
+		return c32Key{S: q, T: 19}
+	case 1:
+		return c32Key{S: q, T: 20, X: rng.Intn(2)}
+	}
+	return c32Key{S: q, T: 21, X: rng.Intn(2), V: 1 + rng.Intn(2)}
+}
+
+// c32RandFrags draws an already fragmented list (one level).  A fragment's keys are often the keys of its left
+// neighbour, unchanged or changed in exactly one field (value, suffix, seqnum, kind) of one key, so that the
+// decision to join abutting fragments depends on every field.  seqs: the level's seqnums.
+func c32RandFrags(rng randSrc, nb, maxKeys int, seqs []int, user bool) []c32Span {
+	fresh := func() []c32Key {
+		var ks []c32Key
+		if user {
+			for x := 0; x < 3; x++ {
+				if rng.Intn(2) == 0 {
+					ks = append(ks, c32Key{S: seqs[rng.Intn(len(seqs))], T: 21, X: x, V: 1 + rng.Intn(2)})
+				}
+			}
+			if len(ks) == 0 {
+				ks = append(ks, c32Key{S: seqs[rng.Intn(len(seqs))], T: 21, X: rng.Intn(3), V: 1 + rng.Intn(2)})
+			}
+			return ks
+		}
+		n := 1 + rng.Intn(maxKeys)
+		for i := 0; i < n; i++ {
+			ks = append(ks, c32RandKey(rng, seqs[rng.Intn(len(seqs))]))
+		}
+		return ks
+	}
+	norm := func(ks []c32Key) []c32Key {
+		if user {
+			return ks
+		}
+		// by trailer descending, one key per trailer
+		sort.SliceStable(ks, func(i, j int) bool { return ks[i].S*256+ks[i].T > ks[j].S*256+ks[j].T })
+		o := ks[:0]
+		for i, k := range ks {
+			if i == 0 || k.S != ks[i-1].S || k.T != ks[i-1].T {
+				o = append(o, k)
+			}
+		}
+		return o
+	}
+	var out []c32Span
+	var prev []c32Key
+	a := rng.Intn(2)
+	for a < nb-1 {
+		b := a + 1 + rng.Intn(2)
+		if b > nb-1 {
+			b = nb - 1
+		}
+		if rng.Intn(6) > 0 {
+			var ks []c32Key
+			if prev == nil || rng.Intn(4) == 0 {
+				ks = fresh()
+			} else {
+				ks = append(ks, prev...)
+				if rng.Intn(3) > 0 { // change one field of one key
+					k := &ks[rng.Intn(len(ks))]
+					switch rng.Intn(4) {
+					case 0:
+						if k.T == 21 {
+							k.V = 3 - k.V
+						}
+					case 1:
+						if !user && k.T != 19 {
+							k.X = 1 - k.X
+						}
+					case 2:
+						k.S = seqs[rng.Intn(len(seqs))]
+					case 3:
+						if !user {
+							*k = c32RandKey(rng, k.S)
+						}
+					}
+				}
+			}
+			ks = norm(ks)
+			out = append(out, c32Span{A: a, B: b, Ks: ks})
+			prev = ks
+		} else {
+			prev = nil
+		}
+		a = b
+	}
+	return out
+}
+
 func c32Random(rng randSrc, nb, nseq, maxSpans, maxKeys, nlevels int) *c32In {
-	ops := []string{"frag", "trunc", "merge", "defrag"}
-	in := &c32In{Op: ops[rng.Intn(4)], Cut: -1}
+	ops := []string{"frag", "trunc", "merge", "defrag", "defrag", "mdefrag"}
+	in := &c32In{Op: ops[rng.Intn(len(ops))], Cut: -1}
 	perm := rng.Perm(nseq)
 	next := 0
 	mk := func(a, b int) c32Span {
@@ -187,30 +345,26 @@ func c32Random(rng randSrc, nb, nseq, maxSpans, maxKeys, nlevels int) *c32In {
 		}
 		sort.Sort(sort.Reverse(sort.IntSlice(seqs)))
 		for _, q := range seqs {
-			s.Ks = append(s.Ks, c32Key{S: q, X: rng.Intn(2)})
+			s.Ks = append(s.Ks, c32RandKey(rng, q))
 		}
 		return s
 	}
 	nl := 1
-	if in.Op == "merge" {
+	if in.Op == "merge" || in.Op == "mdefrag" {
 		nl = nlevels
 	}
 	in.Levels = make([][]c32Span, nl)
-	if in.Op == "defrag" {
-		// a fragmented list; neighbours often carry identical keys
-		pool := [][]c32Key{{{S: 1, X: 0}}, {{S: 2, X: 1}}, {{S: 2, X: 1}, {S: 1, X: 0}}, {{S: 3, X: 0}, {S: 1, X: 0}}}
-		a := rng.Intn(2)
-		for a < nb-1 {
-			b := a + 1 + rng.Intn(2)
-			if b > nb-1 {
-				b = nb - 1
-			}
-			if rng.Intn(5) > 0 {
-				in.Levels[0] = append(in.Levels[0], c32Span{A: a, B: b, Ks: pool[rng.Intn(len(pool))]})
-			}
-			a = b
+	switch in.Op {
+	case "defrag":
+		in.M = []string{"internal", "user"}[rng.Intn(2)]
+		in.Levels[0] = c32RandFrags(rng, nb, maxKeys, []int{1, 2, 3}, in.M == "user")
+	case "mdefrag":
+		// the levels hold disjoint seqnums (newer levels higher ones)
+		for l := range in.Levels {
+			base := 2 * (nl - 1 - l)
+			in.Levels[l] = c32RandFrags(rng, nb, maxKeys, []int{base + 1, base + 2}, false)
 		}
-	} else {
+	default:
 		n := 1 + rng.Intn(maxSpans)
 		for i := 0; i < n && next < nseq; i++ {
 			a := rng.Intn(nb - 1)
